@@ -5,7 +5,9 @@
 //! driver (`rrdriver`); requests starting with `!` are self-checking (observed
 //! must be `pass`). Lines starting with `#` are statistics (JSON).
 mod common;
+mod blocks;
 mod conc;
+mod drip;
 mod ring;
 mod sched;
 mod waits;
@@ -15,6 +17,7 @@ fn main() {
     let args: Vec<String> = std::env::args().collect();
     let lines = match args.get(1).map(|s| s.as_str()) {
         Some("ring") => ring::run(&args),
+        Some("blocks") => blocks::run(&args),
         Some("sched") => sched::run(&args),
         Some("conc") => conc::run(&args),
         Some("waits") => waits::run(&args),
